@@ -1,3 +1,65 @@
-From Sonic Require Import Base.Prelude Model.WsStream.
-Theorem C15_placeholder : True. Proof. exact I. Qed.
-Print Assumptions C15_placeholder.
+(* C15 -- protocol violations are reported, never delivered as data. *)
+From Sonic Require Import Base.Prelude Gen.Consts Gen.Preds Model.WsFrame Spec.FrameParser Model.Transport Model.WsStream Spec.WsSession
+  Proofs.WsCodecProofs Proofs.WsStreamProofs.
+Local Open Scope Z_scope.
+
+(* A frame is reported as an error by handleFrame (used by every read API) iff it violates the framing rules; after a
+   violation while Active the session is ClosedByUs with exactly one Close(1002) queued; in any other state nothing
+   changes. *)
+Theorem C15_framing_violation_reported : forall s f s' e,
+  handle_frame s f = (s', e) ->
+  (e <> eNone <-> mviolates f = true) /\
+  (e <> eNone -> w_state s = ws_StateActive ->
+     w_state s' = ws_StateClosedByUs /\
+     exists key, w_log s' = w_log s ++ [(true, ws_OpcodeClose, close_payload ws_CloseProtocolError [], key)]) /\
+  (e <> eNone -> w_state s <> ws_StateActive -> w_state s' = w_state s /\ w_log s' = w_log s).
+Proof. exact violation_reported. Qed.
+Print Assumptions C15_framing_violation_reported.
+
+(* The model's bit tests are exactly the RFC 6455 rules stated arithmetically (reserved bits, masked frame from a server,
+   reserved opcode, fragmented control frame, control frame above 125 bytes), for every byte string. *)
+Theorem C15_violation_is_rfc_rule : forall f,
+  bytes f -> 2 + sp_ext f <= zlen f -> sp_plen f < WsFrame.two63 -> mviolates f = violates f.
+Proof. exact mviolates_is_rfc. Qed.
+Print Assumptions C15_violation_is_rfc_rule.
+
+(* After the violation application writes are refused. *)
+Theorem C15_writes_refused_after_violation : forall s async mt payload,
+  w_state s <> ws_StateActive -> zlen payload <= w_max s ->
+  wsstep s (WWrite async mt payload) = (s, [EWrite eCancelled]).
+Proof. exact write_refused_when_not_active. Qed.
+Print Assumptions C15_writes_refused_after_violation.
+
+(* The message-level API delivers nothing of a frame reported as an error. *)
+Theorem C15_message_api_reports : forall async s buflen acc cont mtype f err,
+  err <> eNone -> msg_frame async s buflen acc cont mtype f err = (s, MDone [EMsg mtype (zlen acc) acc err]).
+Proof. exact message_api_reports_errors. Qed.
+Print Assumptions C15_message_api_reports.
+
+(* Fragmentation rules at the message level. *)
+Theorem C15_fragmentation_rules : forall async s buflen acc cont mtype f,
+  Opcode_IsControl (opcode_of f) = false ->
+  zlen (copy_into buflen acc (payload_of f)) <= w_max s ->
+  zlen (copy_into buflen acc (payload_of f)) - zlen acc = payload_length f ->
+  let mt := if mtype =? ws_TypeNone then opcode_of f else mtype in
+  let acc' := copy_into buflen acc (payload_of f) in
+  (cont = false -> Opcode_IsContinuation (opcode_of f) = true ->
+     msg_frame async s buflen acc cont mtype f eNone = (s, MDone [EMsg mt (zlen acc') acc' eUnexpectedContinuation])) /\
+  (cont = true -> Opcode_IsContinuation (opcode_of f) = false ->
+     msg_frame async s buflen acc cont mtype f eNone = (s, MDone [EMsg mt (zlen acc') acc' eExpectedContinuation])).
+Proof. exact fragmentation_rules. Qed.
+Print Assumptions C15_fragmentation_rules.
+
+(* Frames above the configured maximum never reach handleFrame: the decoder rejects them (C07). *)
+Theorem C15_oversized_rejected_by_decoder : forall max V raw rest,
+  bytes V -> 0 <= max -> parse1 max V = PFrame raw rest -> sp_plen V <= max.
+Proof. intros max V raw rest Hb Hm H. destruct (parse1_bounded max V raw rest Hb Hm H) as [A _]. exact A. Qed.
+Print Assumptions C15_oversized_rejected_by_decoder.
+
+Example C15_demo :
+  let s0 := ws_init 1024 [[1;2;3;4]] in
+  let '(s1, evs) := wsstep s0 (WIn (InData [193; 1; 65])) in      (* RSV1 set *)
+  let '(s2, evs2) := wsstep s1 WNextFrame in
+  evs2 = [EFrame [193; 1; 65] eReservedBits] /\ w_state s2 = ws_StateClosedByUs /\
+  snd (wsstep s2 (WWrite false 1 [66])) = [EWrite eCancelled].
+Proof. vm_compute. repeat split. Qed.
